@@ -100,7 +100,7 @@ static void run_rows(uint64_t idx, pv_rng* rng) {
     uint64_t k = idx / (uint64_t)pv_nlangs; unsigned a_i = (unsigned)(k % 16); uint64_t seed_i = k / 16;
     pv_rng sr; pv_rng_seed(&sr, pv.seed, 0xc05, seed_i * 16 + (idx % (uint64_t)pv_nlangs));     /* the same seed for the 16 A values of one row group */
     pv_mseed m; pv_gen_mseed(&sr, 7, true, &m);
-    polyseed_data* s = pv_seed_from_model(&m);
+    polyseed_data* s = pv_seed_any_path(rng, &m, pv_gen_coin(rng));      /* every seed, however the wallet came by it */
     if (!s) { pv_violation("C05/load-failed", "%s", pv_mseed_str(&m)); return; }
     unsigned A = a_i < sizeof BOUNDARY / sizeof *BOUNDARY ? BOUNDARY[a_i] : pv_randn(rng, 2048);
     /* the wallet may inject its dependencies again at any time (same table): neither the coin binding nor the enabled
